@@ -20,8 +20,10 @@ direct oracle:   an independent nested-set / nested-multiset canonical form;
 
 This module also hosts helpers shared with c17.py.
 """
+import base64
 import copy
 import itertools
+import pickle
 import logging
 import multiprocessing as mp
 import random
@@ -68,6 +70,12 @@ REPS = [False, True]
 ALL_KNOBS = [dict(cutoff_distance_for_pairs=a, cutoff_intersection_for_pairs=b, max_passes=c, cache_size=d,
                   threshold_to_diff_deeper=e, report_repetition=f)
              for a in CUT_DIST for b in CUT_INTER for c in MAX_PASSES for d in CACHE for e in THRS for f in REPS]
+
+# the same settings in the other legal argument shapes (float where the product has an int and vice versa, numpy-free)
+SHAPE_KNOBS = [dict(cutoff_distance_for_pairs=1.0, cutoff_intersection_for_pairs=1.0), dict(cutoff_intersection_for_pairs=0.0),
+               dict(threshold_to_diff_deeper=0.0, max_passes=2), dict(max_passes=10 ** 9, cache_size=0, threshold_to_diff_deeper=1.0, report_repetition=True),
+               dict(cutoff_distance_for_pairs=0.3, cutoff_intersection_for_pairs=0.7, max_passes=1, cache_size=1, threshold_to_diff_deeper=0.9, report_repetition=True),
+               dict(cutoff_distance_for_pairs=1, cutoff_intersection_for_pairs=0, report_repetition=True)]
 
 STRS = V.STR_POOL + ["a\nb", "a\nc", "a\nb\n", "a\r\nb", "a\nb\r\n", "a\n", "\n", "NONE", "int:1", "bool:true", "__p", "list:"]
 
@@ -349,20 +357,32 @@ def has_tag_like(*vals):
     return found[0]
 
 
+def _fail(ctx, clause, case, what):
+    """every failing input records WHICH clause failed: verdict (result vs specification), knob_dependence, exception, modified (inputs changed),
+    copy_differs (sharing changed the verdict), characterisation (aliasing input: result vs C05_verdict_shared_table_partial).  The known-finding
+    matchers below attribute a case to a finding only for the clause the finding is about."""
+    ctx.fail(dict(case, clause=clause), what)
+
+
 def k1_match(case):
-    return (case.get("impl_empty") is True and case.get("spec_equal") is False
+    # K1 is about the verdict clause only, on an input with a tag-like str, and the wrong verdict is the one the collision predicts
+    # (the difference vanishes once every scalar is identified with the str that spells its serialisation)
+    return (case.get("clause") == "verdict" and case.get("impl_empty") is True and case.get("spec_equal") is False
             and case.get("tag_like") is True and case.get("tag_blind_equal") is True)
 
 
 def k2_match(case):
-    if "verdicts" in case:
+    if case.get("clause") == "knob_dependence":
         # the verdict depends on the pairing knobs: K2 only where a bool is == a non-bool ([{True:'a'}] vs [{1:'a'}]:
         # BoolObj at the top level of a table lookup, == as a dict key); elsewhere C05_knob_independence_shared_table_partial
         # says it cannot happen
         return (case.get("alias") is True and case.get("bool_sep") is False
                 and case.get("spec_equal") is False and case.get("alias_blind_equal") is True)
-    return (case.get("impl_empty") is True and case.get("spec_equal") is False
-            and case.get("alias") is True and case.get("alias_blind_equal") is True)
+    # K2 is about the verdict clause only ("different reported as equal"), on an input with ==-aliasing atoms whose difference vanishes modulo ==;
+    # inside the guard of C05_verdict_shared_table_partial the wrong verdict must be exactly the one the theorem predicts (cb_equal)
+    return (case.get("clause") == "verdict" and case.get("impl_empty") is True and case.get("spec_equal") is False
+            and case.get("alias") is True and case.get("alias_blind_equal") is True
+            and (case.get("cb_equal") is True or case.get("bool_sep") is False))
 
 
 MATCHERS = {"C05-K1-tag-collision": k1_match, "C05-K2-memo-alias": k2_match}
@@ -394,19 +414,19 @@ def check_verdict(ctx, t1, t2, kn, got):
     """the property on the implementation for one knob setting"""
     exp, case = oracle_case(t1, t2, kn, got)
     if isinstance(got, Exception):
-        ctx.fail(case, "DeepDiff(ignore_order=True) raised %s" % type(got).__name__)
+        _fail(ctx, "exception", case, "DeepDiff(ignore_order=True) raised %s" % type(got).__name__)
         return False
     if case["alias"] and case["bool_sep"] and not case["tag_like"]:
         # C05_verdict_shared_table_partial observed on the implementation: with ==-aliasing atoms (no bool == a non-bool)
         # the result is empty EXACTLY when the inputs are equal modulo == below the first list level
         ctx.count("oracle:alias_characterisation_checked")
         if got != case["cb_equal"]:
-            ctx.fail(dict(case, characterisation="violated"),
+            _fail(ctx, "characterisation", dict(case, characterisation="violated"),
                      "aliasing input: ignore_order result is %s but the inputs are %s modulo Python == (C05_verdict_shared_table_partial predicts the opposite)" % (
                          "empty" if got else "non-empty", "equal" if case["cb_equal"] else "different"))
             return False
     if got != exp:
-        ctx.fail(case, "ignore_order result is %s but the inputs are %s as nested %s" % (
+        _fail(ctx, "verdict", case, "ignore_order result is %s but the inputs are %s as nested %s" % (
             "empty" if got else "non-empty", "equal" if exp else "different",
             "multisets" if kn.get("report_repetition") else "sets"))
         return False
@@ -711,17 +731,36 @@ def model_expr(t1, t2, rep, thr, tbl, memo=False):
         coq_pairs_table(tbl), V.to_coq(t1), V.to_coq(t2))
 
 
+def has_sharing(v):
+    """some list / dict object occurs at two positions of v"""
+    seen = set()
+
+    def walk(x):
+        if isinstance(x, (list, dict)):
+            if id(x) in seen:
+                return True
+            seen.add(id(x))
+        if isinstance(x, (list, tuple)):
+            return any(walk(y) for y in x)
+        if isinstance(x, dict):
+            return any(walk(y) for y in x.values())
+        return False
+    return walk(v)
+
+
 def _full_task(args):
-    """worker: run the implementation for every full-result knob setting"""
-    t1r, t2r = args
+    """worker: run the implementation for every full-result knob setting.  The model always gets the VALUES (trees);
+    when blob is given the implementation gets the pickled objects, in which one list / dict object occurs at two positions"""
+    t1r, t2r, blob = args
     t1, t2 = from_repr(t1r), from_repr(t2r)
+    i1, i2 = pickle.loads(blob) if blob else (t1, t2)
     out = []
     alias = V.contains_alias(t1, t2)
     for rep in REPS:
         for thr in ((0.33, 1) if alias else (0, 0.33, 1, 1.0)):        # aliasing pairs: the threshold sweep is done on the alias-free ones
             for kn in (FULL_KNOBS if thr in (0, 0.33) and thr is not True else (FULL_KNOBS[:3] if isinstance(thr, int) else FULL_KNOBS[2:4])):
                 kw = dict(kn, report_repetition=rep, threshold_to_diff_deeper=thr)
-                obs, rec, unmod = run_tree(t1, t2, **kw)
+                obs, rec, unmod = run_tree(i1, i2, **kw)
                 if isinstance(obs, Exception):
                     out.append((kw, "EXC " + repr(obs), None, True, unmod, None))
                     continue
@@ -737,15 +776,21 @@ def _full_task(args):
 
 def correspondence(ctx, pairs, pool):
     cases, vcases = [], []
-    res = pool.map(_full_task, [(repr(a), repr(b)) for a, b in pairs], chunksize=2)
+    jobs = []
+    for a, b in pairs:
+        sh = has_sharing(a) or has_sharing(b)
+        if sh:
+            ctx.count("full:pairs_with_a_shared_container_object")
+        jobs.append((repr(a), repr(b), pickle.dumps((a, b)) if sh else None))
+    res = pool.map(_full_task, jobs, chunksize=2)
     for t1r, t2r, out in res:
         for kw, obs, _tblc, ok, unmod, extra in out:
             tag = {"t1": t1r, "t2": t2r, "knobs": kw}
             if isinstance(obs, str):
-                ctx.fail(dict(tag, error=obs), "DeepDiff(ignore_order=True) raised: " + obs)
+                _fail(ctx, "exception", dict(tag, error=obs), "DeepDiff(ignore_order=True) raised: " + obs)
                 continue
             if not unmod:
-                ctx.fail(tag, "DeepDiff(ignore_order=True) modified its inputs")
+                _fail(ctx, "modified", tag, "DeepDiff(ignore_order=True) modified its inputs")
             expr, varg, paired, nlev = extra
             pairing_off = kw.get("max_passes") == 0 or kw.get("cutoff_intersection_for_pairs") == 0
             if pairing_off and paired:
@@ -804,7 +849,7 @@ def oracle_grid(ctx, jobs, pool):
             ctx.count("oracle:empty" if got is True else "oracle:nonempty")
         for rep, vs in verdicts.items():
             if len(vs) > 1:
-                ctx.fail({"t1": t1r, "t2": t2r, "report_repetition": rep, "verdicts": sorted(map(repr, vs)),
+                _fail(ctx, "knob_dependence", {"t1": t1r, "t2": t2r, "report_repetition": rep, "verdicts": sorted(map(repr, vs)),
                           "alias": V.contains_alias(t1, t2), "tag_like": has_tag_like(t1, t2), "bool_sep": bool_sep(t1, t2),
                           "spec_equal": spec_canon(t1, rep) == spec_canon(t2, rep),
                           "alias_blind_equal": alias_blind(t1, rep) == alias_blind(t2, rep)},
@@ -1018,20 +1063,20 @@ def oracle_shared(ctx, pool, n_tasks, per_task):
                 exp, case = oracle_case(t1, t2v, kn, g)
                 case.update(base)
                 if isinstance(g, Exception):
-                    ctx.fail(case, "DeepDiff(ignore_order=True) raised on inputs that share objects: " + got)
+                    _fail(ctx, "exception", case, "DeepDiff(ignore_order=True) raised on inputs that share objects: " + got)
                 elif g != exp:
-                    ctx.fail(case, "t2 re-uses objects of t1: ignore_order result is %s but the inputs are %s as nested %s" % (
+                    _fail(ctx, "verdict", case, "t2 re-uses objects of t1: ignore_order result is %s but the inputs are %s as nested %s" % (
                         "empty" if g else "non-empty", "equal" if exp else "different",
                         "multisets" if kn.get("report_repetition") else "sets"))
                 elif got != ref:
-                    ctx.fail(dict(case, deep_copied_verdict=ref), "the verdict for t2 sharing objects with t1 differs from the verdict for a deep copy of the same values")
+                    _fail(ctx, "copy_differs", dict(case, deep_copied_verdict=ref), "the verdict for t2 sharing objects with t1 differs from the verdict for a deep copy of the same values")
                 if not unmod:
-                    ctx.fail(case, "DeepDiff(ignore_order=True) modified its inputs (shared objects)")
+                    _fail(ctx, "modified", case, "DeepDiff(ignore_order=True) modified its inputs (shared objects)")
                 verdicts.setdefault(kn.get("report_repetition", False), set()).add(got)
                 ctx.count("shared:empty" if got is True else "shared:nonempty")
             for rep, vs in verdicts.items():
                 if len(vs) > 1:
-                    ctx.fail({"t1": t1r, "t2": t2r, "t2_recipe": rec, "shared": True, "report_repetition": rep, "verdicts": sorted(map(repr, vs)),
+                    _fail(ctx, "knob_dependence", {"t1": t1r, "t2": t2r, "t2_recipe": rec, "shared": True, "report_repetition": rep, "verdicts": sorted(map(repr, vs)),
                               "alias": V.contains_alias(t1, t2v), "tag_like": has_tag_like(t1, t2v)},
                              "t2 re-uses objects of t1: the empty/non-empty verdict depends on the pairing knobs")
     ctx.count("shared:pairs", npairs)
@@ -1107,11 +1152,18 @@ def gen_inner(rng):
     return repr([from_repr(xr), a, b]), wrap(rec, w), wrap(less, w), shape + "/" + w + "/" + xr
 
 
-def inner_case(baser, rec1, t2r, knobs):
+def build_inner(src):
+    """t1 with its sharing, from a replayable description: a recipe over a tree, or a pickle"""
+    if "t1_pickle" in src:
+        return pickle.loads(base64.b64decode(src["t1_pickle"]))
+    return build_shared(from_repr(src["base"]), src["t1_recipe"])
+
+
+def inner_case(src, t2r, knobs):
     """[(knobs, verdict with sharing, verdict for the unshared copy of t1, inputs unmodified)]"""
     out = []
     for kn in knobs:
-        t1 = build_shared(from_repr(baser), rec1)
+        t1 = build_inner(src)
         t2 = unshare(from_repr(t2r))
         snap = (V.canon(unshare(t1)), V.canon(t2))
         got = verdict_shared(t1, t2, **kn)
@@ -1126,40 +1178,57 @@ def _inner_task(args):
     rng = random.Random(seed)
     res = []
     for _ in range(n):
-        baser, rec1, rec_less, kind = gen_inner(rng)
-        base = from_repr(baser)
-        v1 = unshare(build_shared(base, rec1))
-        variants = [("same", rebuild(v1, rng)), ("self_copy", v1), ("one_occurrence_less", rebuild(unshare(build_shared(base, rec_less)), rng))]
+        src = None
+        if rng.random() < 0.3:
+            # any generated value in which V.share makes one list / dict object occur at a second position
+            v = V.gen_value(rng, depth=3, width=3, alias=False, strings=V.STR_POOL, kinds="LLLDDT")
+            sv, ok = V.share(rng, [v, rng.choice([0, "z", 9]), V.gen_value(rng, 2, 3, False, V.STR_POOL, kinds="LD")])
+            if ok:
+                src, kind = {"t1_pickle": base64.b64encode(pickle.dumps(sv)).decode("ascii")}, "random_share/any/any"
+                v1 = unshare(sv)
+                ed = v1
+                for _try in range(5):
+                    w, k = io_edit(rng, v1)
+                    if k is not None:
+                        ed = w
+                        break
+                variants = [("same", rebuild(v1, rng)), ("self_copy", v1), ("edited", rebuild(unshare(ed), rng))]
+        if src is None:
+            baser, rec1, rec_less, kind = gen_inner(rng)
+            src = {"base": baser, "t1_recipe": rec1}
+            base = from_repr(baser)
+            v1 = unshare(build_shared(base, rec1))
+            variants = [("same", rebuild(v1, rng)), ("self_copy", v1), ("one_occurrence_less", rebuild(unshare(build_shared(base, rec_less)), rng))]
         for vk, t2 in (variants if rng.random() < 0.5 else rng.sample(variants, 2)):
-            knobs = [dict(k, report_repetition=rp) for k in INNER_KNOBS for rp in REPS] + rng.sample(ALL_KNOBS, 4)
-            res.append((baser, rec1, repr(v1), repr(t2), kind + "/" + vk, inner_case(baser, rec1, repr(t2), knobs)))
+            knobs = [dict(k, report_repetition=rp) for k in INNER_KNOBS for rp in REPS] + rng.sample(ALL_KNOBS, 4) + rng.sample(SHAPE_KNOBS, 1)
+            res.append((src, repr(v1), repr(t2), kind + "/" + vk, inner_case(src, repr(t2), knobs)))
     return res
 
 
-def check_inner(ctx, baser, rec1, t1r, t2r, out):
+def check_inner(ctx, src, t1r, t2r, out):
     """the property on one (t1 with internal sharing, t2) pair for the evaluated knob settings"""
     t1v, t2v = from_repr(t1r), from_repr(t2r)
     verdicts = {}
     for kn, got, ctl, unmod in out:
         g = got if isinstance(got, bool) else RuntimeError(got)
         exp, case = oracle_case(t1v, t2v, kn, g)
-        case.update({"base": baser, "t1_recipe": rec1, "internal": True})
-        ctx.seen(("inner", baser, repr(rec1), t2r, sorted(kn.items())), nontrivial=True)
+        case.update(dict(src, internal=True))
+        ctx.seen(("inner", repr(sorted(src.items())), t2r, sorted(kn.items())), nontrivial=True)
         if isinstance(g, Exception):
-            ctx.fail(case, "DeepDiff(ignore_order=True) raised on a t1 that references one container object several times: " + got)
+            _fail(ctx, "exception", case, "DeepDiff(ignore_order=True) raised on a t1 that references one container object several times: " + got)
         elif g != exp:
-            ctx.fail(case, "t1 references one container object several times: ignore_order result is %s but the inputs are %s as nested %s" % (
+            _fail(ctx, "verdict", case, "t1 references one container object several times: ignore_order result is %s but the inputs are %s as nested %s" % (
                 "empty" if g else "non-empty", "equal" if exp else "different", "multisets" if kn.get("report_repetition") else "sets"))
         elif got != ctl:
-            ctx.fail(dict(case, unshared_verdict=ctl), "the verdict for a t1 that references one container object several times differs from the verdict for the value-identical unshared copy")
+            _fail(ctx, "copy_differs", dict(case, unshared_verdict=ctl), "the verdict for a t1 that references one container object several times differs from the verdict for the value-identical unshared copy")
         if not unmod:
-            ctx.fail(case, "DeepDiff(ignore_order=True) modified its inputs (t1 with internal sharing)")
+            _fail(ctx, "modified", case, "DeepDiff(ignore_order=True) modified its inputs (t1 with internal sharing)")
         verdicts.setdefault(kn.get("report_repetition", False), set()).add(got)
         ctx.count("inner:empty" if got is True else "inner:nonempty")
     for rep, vs in verdicts.items():
         if len(vs) > 1:
-            ctx.fail({"t1": t1r, "t2": t2r, "base": baser, "t1_recipe": rec1, "internal": True, "report_repetition": rep,
-                      "verdicts": sorted(map(repr, vs)), "alias": V.contains_alias(t1v, t2v), "tag_like": has_tag_like(t1v, t2v)},
+            _fail(ctx, "knob_dependence", dict(src, t1=t1r, t2=t2r, internal=True, report_repetition=rep,
+                      verdicts=sorted(map(repr, vs)), alias=V.contains_alias(t1v, t2v), tag_like=has_tag_like(t1v, t2v)),
                      "t1 references one container object several times: the empty/non-empty verdict depends on the pairing knobs")
 
 
@@ -1167,11 +1236,11 @@ def oracle_inner(ctx, pool, n_tasks, per_task):
     seeds = [ctx.rng.randrange(1 << 30) for _ in range(n_tasks)]
     npairs = 0
     for res in pool.map(_inner_task, [(sd, per_task) for sd in seeds], chunksize=1):
-        for baser, rec1, t1r, t2r, kind, out in res:
+        for src, t1r, t2r, kind, out in res:
             npairs += 1
             ctx.count("inner:" + kind.split("/")[0])
             ctx.count("inner:t2_" + kind.rsplit("/", 1)[1])
-            check_inner(ctx, baser, rec1, t1r, t2r, out)
+            check_inner(ctx, src, t1r, t2r, out)
     ctx.count("inner:pairs", npairs)
 
 
@@ -1183,7 +1252,7 @@ def replay_witnesses(ctx):
         got = verdict(t1, t2, **kw)
         w.append(name)
         if isinstance(got, Exception):
-            ctx.fail({"t1": repr(t1), "t2": repr(t2), "knobs": kw, "impl_empty": repr(got)}, "DeepDiff(ignore_order=True) raised %s on a theorem witness" % type(got).__name__)
+            _fail(ctx, "exception", {"t1": repr(t1), "t2": repr(t2), "knobs": kw, "impl_empty": repr(got)}, "DeepDiff(ignore_order=True) raised %s on a theorem witness" % type(got).__name__)
         elif got is not stale_if_nonempty:
             ctx.break_("correspondence", {"name": name, "detail": detail})
     probe("C05_verdict_tag_refuted([None] vs ['NONE'])", [None], ["NONE"], True,
@@ -1218,7 +1287,7 @@ def replay_witnesses(ctx):
 def run(ctx):
     rng = ctx.rng
     sys.setrecursionlimit(10000)
-    n_full = 160 if ctx.thorough else 18
+    n_full = 160 if ctx.thorough else 17
     n_grid = 60 if ctx.thorough else 5
     n_rand = 1500 if ctx.thorough else 180
     replay_witnesses(ctx)
@@ -1242,16 +1311,38 @@ def run(ctx):
         if V.contains_alias(a, b):
             alias_full.append((a, b))
     full += alias_full
-    specials = special_pairs(rng, 24 if ctx.thorough else 5)
+    specials = special_pairs(rng, 24 if ctx.thorough else 4)
     full += specials          # pairs with ==-aliasing atoms are compared with the memo-threading model
+    # one list / dict object at two positions of t1 (or t2) in ~13 % of the generated pairs: the model gets the unfolded tree
+    cand = list(range(len(FIXED_PAIRS), len(full)))
+    rng.shuffle(cand)
+    n_sh, want = 0, max(3, int(0.13 * len(full)))
+    for i in cand:
+        if n_sh >= want:
+            break
+        a, b = full[i]
+        for side in rng.sample([0, 1], 2):
+            x2, ok = V.share(rng, (a, b)[side])
+            if ok:
+                full[i] = (x2, b) if side == 0 else (a, x2)
+                n_sh += 1
+                break
     for a, b in full[:2] + full[len(FIXED_PAIRS):len(FIXED_PAIRS) + 2]:
         ctx.sample({"t1": repr(a), "t2": repr(b)})
+    import time as _time
+    phase, t_last = {}, [_time.time()]
+
+    def lap(name):
+        now = _time.time()
+        phase[name] = round(now - t_last[0], 1)
+        t_last[0] = now
     with mp.get_context("fork").Pool(core.NCPU) as pool:
         correspondence(ctx, full, pool)
+        lap("correspondence")
         # --- direct oracle: the complete knob product on some pairs, a random slice of it on many
         jobs = [(a, b, ALL_KNOBS) for a, b in FIXED_PAIRS[:4] + [(x, y) for x, y, _k in gen[:n_grid]]]
         for a, b, _k in gen[n_grid:]:
-            jobs.append((a, b, rng.sample(ALL_KNOBS, 24)))
+            jobs.append((a, b, rng.sample(ALL_KNOBS, 24) + rng.sample(SHAPE_KNOBS, 2)))
         # guard-boundary inputs (aliasing atoms, tag-like strings): every failure must be a known finding
         for a, b in FIXED_FINDINGS + FIXED_TIMES:
             jobs.append((a, b, rng.sample(ALL_KNOBS, 12)))
@@ -1268,10 +1359,14 @@ def run(ctx):
                 jobs.append((a, b, rng.sample(ALL_KNOBS, 8)))
         ctx.count("oracle:alias_pairs", n_alias)
         oracle_grid(ctx, jobs, pool)
+        lap("oracle_grid")
         # --- objects shared across t1 and t2 (t2 built from pieces of t1 by reference)
         oracle_shared(ctx, pool, core.NCPU, 40 if ctx.thorough else 8)
+        lap("oracle_shared")
         # --- one container object at several positions INSIDE t1 (t2 fresh)
-        oracle_inner(ctx, pool, core.NCPU, 60 if ctx.thorough else 10)
+        oracle_inner(ctx, pool, core.NCPU, 36 if ctx.thorough else 8)
+        lap("oracle_inner")
+    ctx.note("phase_wall_s", phase)
     ctx.note("knob_product", {"cutoff_distance_for_pairs": CUT_DIST, "cutoff_intersection_for_pairs": CUT_INTER, "max_passes": MAX_PASSES,
                               "cache_size": CACHE, "threshold_to_diff_deeper": THRS, "report_repetition": REPS, "size": len(ALL_KNOBS)})
 
@@ -1282,11 +1377,12 @@ def replay(ctx, data):
         return run(ctx)
     if case.get("internal"):
         knobs = [case["knobs"]] if "knobs" in case else [dict(k, report_repetition=rp) for k in INNER_KNOBS for rp in REPS]
-        out = inner_case(case["base"], case["t1_recipe"], case["t2"], knobs)
+        src = {k: case[k] for k in ("base", "t1_recipe", "t1_pickle") if k in case}
+        out = inner_case(src, case["t2"], knobs)
         for kn, got, ctl, _u in out:
             ctx.evaluations += 1
             print("replay (t1 references one container object several times): t1=%s t2=%s knobs=%r -> shared %s, unshared copy %s" % (case["t1"], case["t2"], kn, got, ctl))
-        check_inner(ctx, case["base"], case["t1_recipe"], case["t1"], case["t2"], out)
+        check_inner(ctx, src, case["t1"], case["t2"], out)
         return
     if case.get("shared"):
         knobs = [case["knobs"]] if "knobs" in case else [dict(k, report_repetition=rp) for k in SHARED_KNOBS for rp in REPS]
@@ -1299,13 +1395,13 @@ def replay(ctx, data):
             exp, c2 = oracle_case(from_repr(case["t1"]), t2v, kn, g)
             c2.update({"t2_recipe": case["t2_recipe"], "shared": True})
             if isinstance(g, Exception) or g != exp:
-                ctx.fail(c2, "t2 re-uses objects of t1: ignore_order verdict is wrong (%s, specification says %s)" % (got, "empty" if exp else "non-empty"))
+                _fail(ctx, "verdict", c2, "t2 re-uses objects of t1: ignore_order verdict is wrong (%s, specification says %s)" % (got, "empty" if exp else "non-empty"))
             elif got != ref:
-                ctx.fail(c2, "the verdict for t2 sharing objects with t1 differs from the verdict for a deep copy of the same values")
+                _fail(ctx, "copy_differs", c2, "the verdict for t2 sharing objects with t1 differs from the verdict for a deep copy of the same values")
             vs.setdefault(kn.get("report_repetition", False), set()).add(got)
         for rep, s_ in vs.items():
             if len(s_) > 1:
-                ctx.fail({"t1": case["t1"], "t2": case["t2"], "t2_recipe": case["t2_recipe"], "shared": True, "report_repetition": rep,
+                _fail(ctx, "knob_dependence", {"t1": case["t1"], "t2": case["t2"], "t2_recipe": case["t2_recipe"], "shared": True, "report_repetition": rep,
                           "verdicts": sorted(map(repr, s_))}, "t2 re-uses objects of t1: the empty/non-empty verdict depends on the pairing knobs")
         return
     t1, t2 = from_repr(case["t1"]), from_repr(case["t2"])
@@ -1321,7 +1417,7 @@ def replay(ctx, data):
             vs.setdefault(kn["report_repetition"], set()).add(_enc(verdict(t1, t2, **kn)))
         for rep, s in vs.items():
             if len(s) > 1:
-                ctx.fail({"t1": case["t1"], "t2": case["t2"], "report_repetition": rep, "verdicts": sorted(map(repr, s)),
+                _fail(ctx, "knob_dependence", {"t1": case["t1"], "t2": case["t2"], "report_repetition": rep, "verdicts": sorted(map(repr, s)),
                           "alias": V.contains_alias(t1, t2), "tag_like": has_tag_like(t1, t2), "bool_sep": bool_sep(t1, t2),
                           "spec_equal": spec_canon(t1, rep) == spec_canon(t2, rep),
                           "alias_blind_equal": alias_blind(t1, rep) == alias_blind(t2, rep)},
